@@ -26,7 +26,10 @@ use crate::{
         },
         tls::TlsServerConfig,
     },
-    context::{make_buffered_stream, Context, ContextCallback, ContextRef, ContextRefOps, Feature},
+    context::{
+        make_buffered_stream, Context, ContextCallback, ContextRef, ContextRefOps, Feature,
+        IOBufStream,
+    },
     listeners::Listener,
     GlobalState,
 };
@@ -136,7 +139,29 @@ impl SocksListener {
             .contexts
             .create_context(self.name.to_owned(), source)
             .await;
+        let ret = self
+            .handshake_request(ctx.clone(), socket, source, local_addr, state, queue)
+            .await;
+        // the connection ends here: give its record a terminal state and the reason
+        let failure = ret
+            .as_ref()
+            .err()
+            .map(|e| format!("handshake failed: {} cause: {:?}", e, e.cause));
+        if let Some(msg) = failure {
+            ctx.on_error(err_msg(msg)).await;
+        }
+        ret
+    }
 
+    async fn handshake_request(
+        self: Arc<Self>,
+        ctx: ContextRef,
+        mut socket: IOBufStream,
+        source: SocketAddr,
+        local_addr: SocketAddr,
+        state: Arc<GlobalState>,
+        queue: Sender<ContextRef>,
+    ) -> Result<(), Error> {
         let auth_server = PasswordAuth {
             required: self.auth.required,
         };
